@@ -307,6 +307,7 @@ func Build(u *ref.Universe, srcs []string, opt Opt) *Outcome {
 	}
 	if !opt.NoCompare && !o.SrcValid && len(o.OutErrs) == 0 && o.Out != nil && o.Out.Pkg != nil {
 		o.compareEmitted(u, c)
+		o.compareDecls(c) // declared objects of a lowered extension program: same oracle as for valid Go sources
 	}
 	if opt.NoCompare || !o.SrcValid || len(o.OutErrs) > 0 {
 		return o
@@ -655,6 +656,11 @@ func (o *Outcome) compareEmitted(u *ref.Universe, c *fe.Compiler) {
 		bt := it.rec.Type
 		if _, isTT := bt.(*gogen.TypeType); isTT {
 			continue
+		}
+		if sig, ok := bt.(*types.Signature); ok {
+			if _, ext := gogen.CheckSigFuncEx(sig); ext { // an overloaded / template callee before the call resolves it: no Go counterpart
+				continue
+			}
 		}
 		if it.rec.CommaOk {
 			if tup, ok := bt.(*types.Tuple); ok && tup.Len() == 2 {
